@@ -1,0 +1,13 @@
+//go:build verif
+
+// Contracts for package mac, checked by /verif/engine (gvc).  This file
+// contains comments only; it is compiled only with the "verif" build tag.
+package mac
+
+// The Mac Roman codec is a pure function of its argument (assumed: string
+// contents are uninterpreted in this engine).
+//@ assume func Decode(data []byte) (s string)
+//@   modifies nothing
+//@ assume func Encode(s string) (data []byte)
+//@   ensures isnil(data) || fresh(data)
+//@   modifies nothing
